@@ -75,6 +75,11 @@ var roleTable = []roleSpec{
 	{"policy", "BaseFailurePolicy", "onFailure", "policy.(*BaseFailurePolicy).OnFailure", 1},
 	{"policy", "BaseFailurePolicy", "failureConditions", "policy.(*BaseFailurePolicy).HandleIf", 1},
 	{"policy", "BaseAbortablePolicy", "abortConditions", "policy.(*BaseAbortablePolicy).AbortOnResult", -1},
+	{"failsafehttp", "roundTripper", "next", "failsafehttp.NewRoundTripperWithExecutor", 0},
+	{"failsafehttp", "roundTripper", "executor", "failsafehttp.NewRoundTripperWithExecutor", 1},
+	{"failsafehttp", "Request", "request", "failsafehttp.NewRequestWithExecutor", 0},
+	{"failsafehttp", "Request", "client", "failsafehttp.NewRequestWithExecutor", 1},
+	{"failsafehttp", "Request", "executor", "failsafehttp.NewRequestWithExecutor", 2},
 }
 
 // canonical "pkg.Type.field" → actual field name, and actual "pkg.Type.field" → canonical field name
@@ -117,6 +122,13 @@ func derivesFrom(v ssa.Value, p *ssa.Parameter, depth int) bool {
 		}
 	case *ssa.Slice:
 		return derivesFrom(x.X, p, depth+1)
+	case *ssa.Phi:
+		// the parameter with a default substituted on one branch
+		for _, e := range x.Edges {
+			if derivesFrom(e, p, depth+1) {
+				return true
+			}
+		}
 	case *ssa.Alloc:
 		// varargs backing array: some store into it derives from p
 		for _, ref := range *x.Referrers() {
@@ -223,6 +235,102 @@ func resolveRoles(p *Program) {
 		toActual[r.pkg+"."+r.typ+"."+r.canonical] = actual
 		toCanonical[r.pkg+"."+r.typ+"."+actual] = r.canonical
 	}
+	// per-execution state of the retry executor, identified by kind: its only int counter, its only bool flag and
+	// its only duration; the fields may live in the executor or in a same-package struct it embeds by value
+	for _, spec := range []struct{ pkg, canonical, kind string }{
+		{"retrypolicy", "failedAttempts", "int"}, {"retrypolicy", "retriesExceeded", "bool"}, {"retrypolicy", "lastDelay", "time.Duration"},
+	} {
+		named := execNamedOf(p, spec.pkg)
+		if named == nil {
+			continue
+		}
+		var found []FieldRef
+		for _, fr := range execStateFields(p, spec.pkg, named) {
+			on := p.NamedType(spec.pkg, fr.Type)
+			if on == nil {
+				continue
+			}
+			s := on.Underlying().(*types.Struct)
+			for i := 0; i < s.NumFields(); i++ {
+				if s.Field(i).Name() == fr.Field && types.TypeString(s.Field(i).Type(), nil) == spec.kind {
+					found = append(found, fr)
+				}
+			}
+		}
+		if len(found) != 1 {
+			continue
+		}
+		rolesResolved++
+		if found[0].Field != spec.canonical {
+			rolesRenamed++
+		}
+		for _, tn := range []string{"executor", named.Obj().Name(), found[0].Type} {
+			toActual[spec.pkg+"."+tn+"."+spec.canonical] = found[0].Field
+			toCanonical[spec.pkg+"."+tn+"."+found[0].Field] = spec.canonical
+		}
+	}
+}
+
+// ---- type roles ----------------------------------------------------------------------------------------------
+//
+// Each policy package's executor struct is called "executor" upstream; when it is renamed, names derived from it
+// (function names, field references) keep using "executor", so that a rename is not a change for any rule.
+
+var typeCanon = map[*types.TypeName]string{}
+
+func typeCanonName(o *types.TypeName) string {
+	if c, ok := typeCanon[o]; ok {
+		return c
+	}
+	return o.Name()
+}
+
+func resolveTypeRoles(p *Program) {
+	typeCanon = map[*types.TypeName]string{}
+	for _, pkg := range []string{"retrypolicy", "circuitbreaker", "ratelimiter", "bulkhead", "timeout", "hedgepolicy", "fallback", "cachepolicy"} {
+		if n := execNamedOf(p, pkg); n != nil && n.Obj().Name() != "executor" {
+			if pk := p.ByPath[p.pkgPath(pkg)]; pk != nil && pk.Types.Scope().Lookup("executor") == nil {
+				typeCanon[n.Obj()] = "executor"
+			}
+		}
+	}
+}
+
+// execNamedOf finds the policy executor struct of a package: the struct embedding policy.BaseExecutor.
+func execNamedOf(p *Program, pkg string) *types.Named {
+	pk := p.ByPath[p.pkgPath(pkg)]
+	if pk == nil {
+		return nil
+	}
+	sc := pk.Types.Scope()
+	for _, n := range sc.Names() {
+		tn, ok := sc.Lookup(n).(*types.TypeName)
+		if !ok {
+			continue
+		}
+		named, ok := tn.Type().(*types.Named)
+		if !ok {
+			continue
+		}
+		s, ok := named.Underlying().(*types.Struct)
+		if !ok {
+			continue
+		}
+		for i := 0; i < s.NumFields(); i++ {
+			f := s.Field(i)
+			if !f.Embedded() {
+				continue
+			}
+			t := f.Type()
+			if pt, isP := t.(*types.Pointer); isP {
+				t = pt.Elem()
+			}
+			if en, ok := t.(*types.Named); ok && en.Obj().Name() == "BaseExecutor" {
+				return named
+			}
+		}
+	}
+	return nil
 }
 
 // canonicalField maps a "pkg.Type.field" key of the analysed tree to the canonical field name.
@@ -401,6 +509,80 @@ func resolveFuncRoles(p *Program) {
 			p.byName[r.canonical] = fn
 			funcCanon[fn] = shortName(r.canonical)
 			funcsRenamed++
+		}
+	}
+}
+
+// ---- interface method roles ----------------------------------------------------------------------------------
+//
+// The unexported methods of the breaker's circuitState interface are addressed by the rules by name; when one is
+// renamed it is recognised by its signature (each has a distinct one).
+
+var methodCanon = map[string]string{} // "pkg.actual" -> canonical method name
+
+func canonMethodName(f *types.Func) string {
+	if f.Pkg() != nil {
+		if c, ok := methodCanon[f.Pkg().Name()+"."+f.Name()]; ok {
+			return c
+		}
+	}
+	return f.Name()
+}
+
+func resolveIfaceRoles(p *Program) {
+	methodCanon = map[string]string{}
+	iface := p.NamedType("circuitbreaker", "circuitState")
+	if iface == nil {
+		return
+	}
+	it, ok := iface.Underlying().(*types.Interface)
+	if !ok {
+		return
+	}
+	classify := func(sig *types.Signature) string {
+		np, nr := sig.Params().Len(), sig.Results().Len()
+		switch {
+		case np == 1 && nr == 0:
+			return "checkThresholdAndReleasePermit"
+		case np == 0 && nr == 1:
+			rt := sig.Results().At(0).Type()
+			switch types.TypeString(rt, func(*types.Package) string { return "" }) {
+			case "bool":
+				return "tryAcquirePermit"
+			case "Duration":
+				return "remainingDelay"
+			case "State":
+				return "state"
+			}
+		}
+		return ""
+	}
+	seen := map[string]int{}
+	for i := 0; i < it.NumExplicitMethods(); i++ {
+		seen[classify(it.ExplicitMethod(i).Type().(*types.Signature))]++
+	}
+	for i := 0; i < it.NumExplicitMethods(); i++ {
+		m := it.ExplicitMethod(i)
+		canon := classify(m.Type().(*types.Signature))
+		if canon == "" || seen[canon] != 1 || canon == m.Name() {
+			continue
+		}
+		methodCanon["circuitbreaker."+m.Name()] = canon
+		funcsRenamed++
+		for _, impl := range p.Implementers(iface) {
+			if impl.Obj().Pkg() == nil || impl.Obj().Pkg().Name() != "circuitbreaker" {
+				continue
+			}
+			fn := p.MethodOf(impl, m.Name())
+			if fn == nil {
+				continue
+			}
+			// only methods declared on the type itself
+			if rn := namedOfPtr(fn.Signature.Recv().Type()); rn == nil || rn.Obj() != impl.Obj() {
+				continue
+			}
+			p.byName["circuitbreaker.(*"+impl.Obj().Name()+")."+canon] = fn
+			funcCanon[fn] = canon
 		}
 	}
 }
